@@ -1,0 +1,142 @@
+//go:build verif
+
+// Contracts for package gtfs, read by the /verif VC generator (govc). This file contains comments only: with the
+// `verif` build tag off it does not exist for the compiler, with the tag on it adds no code.
+//
+// Syntax: see /verif/engine/spec.go. Top-level `ensures` clauses are taken from the property statements in
+// /verif/properties.jsonl and from the GTFS reference tables, not from the code.
+
+package gtfs
+
+// ----------------------------------------------------------------------------------------------------------------
+// Enum decoders (C01: "enums by their GTFS digit"; C10: blank = default)
+
+//@ func parseBikesAllowed
+//@   props C01 C10
+//@   ensures [one] s == "1" ==> result == BikesAllowed_Allowed
+//@   ensures [two] s == "2" ==> result == BikesAllowed_NotAllowed
+//@   ensures [zero] s == "0" ==> result == BikesAllowed_NotSpecified
+//@   ensures [blank] s == "" ==> result == BikesAllowed_NotSpecified
+//@   ensures [range] result == 0 || result == 1 || result == 2
+//@   canary [must-fail] s == "2" ==> result == BikesAllowed_Allowed
+//@   assigns nothing
+
+//@ func parseDirectionID_GTFSStatic
+//@   props C01 C10
+//@   ensures [zero] s == "0" ==> result == DirectionID_False
+//@   ensures [one] s == "1" ==> result == DirectionID_True
+//@   ensures [blank] s == "" ==> result == DirectionID_Unspecified
+//@   ensures [other] s != "0" && s != "1" ==> result == DirectionID_Unspecified
+//@   canary [must-fail] s == "1" ==> result == DirectionID_False
+//@   assigns nothing
+
+//@ func parseDirectionID_GTFSRealtime
+//@   props C02
+//@   ensures [absent] raw == nil ==> result == DirectionID_Unspecified
+//@   ensures [zero] raw != nil && *raw == 0 ==> result == DirectionID_False
+//@   ensures [one] raw != nil && *raw == 1 ==> result == DirectionID_True
+//@   ensures [never-unspecified] raw != nil ==> result != DirectionID_Unspecified
+//@   canary [must-fail] raw != nil && *raw == 1 ==> result == DirectionID_False
+//@   assigns nothing
+
+//@ func parseExactTimes
+//@   props C01 C10
+//@   ensures [zero] s == "0" ==> result == FrequencyBased
+//@   ensures [one] s == "1" ==> result == ScheduleBased
+//@   ensures [blank] s == "" ==> result == FrequencyBased
+//@   canary [must-fail] s == "" ==> result == ScheduleBased
+//@   assigns nothing
+
+//@ func parsePickupDropOffPolicy
+//@   props C01 C10
+//@   ensures [zero] s == "0" ==> result == PickupDropOffPolicy_Yes
+//@   ensures [one] s == "1" ==> result == PickupDropOffPolicy_No
+//@   ensures [two] s == "2" ==> result == PickupDropOffPolicy_PhoneAgency
+//@   ensures [three] s == "3" ==> result == PickupDropOffPolicy_CoordinateWithDriver
+//@   ensures [blank-is-none] s == "" ==> result == PickupDropOffPolicy_No
+//@   canary [must-fail] s == "0" ==> result == PickupDropOffPolicy_No
+//@   assigns nothing
+
+//@ func parseRouteType_GTFSStatic
+//@   props C01 C02
+//@   ensures [d0] s == "0" ==> result == RouteType_Tram
+//@   ensures [d1] s == "1" ==> result == RouteType_Subway
+//@   ensures [d2] s == "2" ==> result == RouteType_Rail
+//@   ensures [d3] s == "3" ==> result == RouteType_Bus
+//@   ensures [d4] s == "4" ==> result == RouteType_Ferry
+//@   ensures [d5] s == "5" ==> result == RouteType_CableTram
+//@   ensures [d6] s == "6" ==> result == RouteType_AerialLift
+//@   ensures [d7] s == "7" ==> result == RouteType_Funicular
+//@   ensures [d11] s == "11" ==> result == RouteType_TrolleyBus
+//@   ensures [d12] s == "12" ==> result == RouteType_Monorail
+//@   ensures [values] RouteType_Tram == 0 && RouteType_Subway == 1 && RouteType_Rail == 2 && RouteType_Bus == 3 && RouteType_Ferry == 4 && RouteType_CableTram == 5 && RouteType_AerialLift == 6 && RouteType_Funicular == 7 && RouteType_TrolleyBus == 11 && RouteType_Monorail == 12
+//@   ensures [other] s != "0" && s != "1" && s != "2" && s != "3" && s != "4" && s != "5" && s != "6" && s != "7" && s != "11" && s != "12" ==> result == RouteType_Unknown
+//@   canary [must-fail] s == "11" ==> result == RouteType_Monorail
+//@   assigns nothing
+
+//@ func parseRouteType_GTFSRealtime
+//@   props C02 C12
+//@   ensures [absent] raw == nil ==> result == RouteType_Unknown
+//@   ensures [d0] raw != nil && *raw == 0 ==> result == RouteType_Tram
+//@   ensures [d3] raw != nil && *raw == 3 ==> result == RouteType_Bus
+//@   ensures [d7] raw != nil && *raw == 7 ==> result == RouteType_Funicular
+//@   ensures [d11] raw != nil && *raw == 11 ==> result == RouteType_TrolleyBus
+//@   ensures [d12] raw != nil && *raw == 12 ==> result == RouteType_Monorail
+//@   ensures [neg] raw != nil && *raw < 0 ==> result == RouteType_Unknown
+//@   assigns nothing
+
+//@ func parseStopType
+//@   props C01 C10
+//@   ensures [d1] s == "1" ==> result == StopType_Station
+//@   ensures [d2] s == "2" ==> result == StopType_EntranceOrExit
+//@   ensures [d3] s == "3" ==> result == StopType_GenericNode
+//@   ensures [d4] s == "4" ==> result == StopType_BoardingArea
+//@   ensures [d0-stop] (s == "0" || s == "") && !hasParentStop ==> result == StopType_Stop
+//@   ensures [d0-platform] (s == "0" || s == "") && hasParentStop ==> result == StopType_Platform
+//@   canary [must-fail] s == "1" ==> result == StopType_Stop
+//@   assigns nothing
+
+//@ func parseTransferType
+//@   props C01 C10
+//@   ensures [d0] s == "0" ==> result == TransferType_Recommended
+//@   ensures [d1] s == "1" ==> result == TransferType_Timed
+//@   ensures [d2] s == "2" ==> result == TransferType_RequiresTime
+//@   ensures [d3] s == "3" ==> result == TransferType_NotPossible
+//@   ensures [blank] s == "" ==> result == TransferType_Recommended
+//@   canary [must-fail] s == "" ==> result == TransferType_Timed
+//@   assigns nothing
+
+//@ func parseWheelchairBoarding
+//@   props C01 C10
+//@   ensures [d0] s == "0" ==> result == WheelchairBoarding_NotSpecified
+//@   ensures [d1] s == "1" ==> result == WheelchairBoarding_Possible
+//@   ensures [d2] s == "2" ==> result == WheelchairBoarding_NotPossible
+//@   ensures [blank] s == "" ==> result == WheelchairBoarding_NotSpecified
+//@   canary [must-fail] s == "1" ==> result == WheelchairBoarding_NotPossible
+//@   assigns nothing
+
+// ----------------------------------------------------------------------------------------------------------------
+// TripID.Less is a strict total order on trip identifiers (C07, C06). The SSA of Less itself is the definition.
+// keyEq: the identifiers agree on everything Less looks at.
+
+//@ pure func keyEq(a TripID, b TripID) bool = a.ID == b.ID && a.RouteID == b.RouteID && a.DirectionID == b.DirectionID && a.HasStartTime == b.HasStartTime && (a.HasStartTime ==> a.StartTime == b.StartTime) && a.HasStartDate == b.HasStartDate && (a.HasStartDate ==> ns(a.StartDate) == ns(b.StartDate)) && a.ScheduleRelationship == b.ScheduleRelationship
+
+//@ lemma Less_irreflexive C07 C06 : forall a TripID :: !a.Less(a)
+//@ lemma Less_asymmetric C07 C06 : forall a TripID, b TripID :: a.Less(b) ==> !b.Less(a)
+//@ lemma Less_transitive C07 C06 : forall a TripID, b TripID, c TripID :: a.Less(b) && b.Less(c) ==> a.Less(c)
+//@ lemma Less_total C07 C06 : forall a TripID, b TripID :: !a.Less(b) && !b.Less(a) ==> keyEq(a, b)
+//@ lemma Less_respects_keyEq C07 : forall a TripID, b TripID, c TripID :: keyEq(a, b) ==> (a.Less(c) <==> b.Less(c)) && (c.Less(a) <==> c.Less(b))
+//@ canarylemma Less_connex_must_fail C07 : forall a TripID, b TripID :: a.Less(b) || b.Less(a)
+//@ canarylemma Less_ignores_time_must_fail C07 : forall a TripID, b TripID :: a.ID == b.ID && a.RouteID == b.RouteID && a.DirectionID == b.DirectionID ==> !a.Less(b)
+
+// ----------------------------------------------------------------------------------------------------------------
+// Static row loops. csvOK is the invariant every parse function requires of its file and keeps across rows.
+
+//@ pure func csvOK(f *csv.File) bool = csv.fileOK(f)
+
+//@ func parseRoutes
+//@   props C01 C03 C05 C08 C09 C10
+//@   requires csvOK(csv)
+//@   loop 1 invariant csvOK(csv)
+//@   loop 1 decreases remaining(csv.csvReader)
+//@   loop 2 invariant 0 <= 0
